@@ -190,6 +190,9 @@ class RoutingProblem:
             )
 
         A_eq, b_eq, Q_eq, r_eq = self.get_constraint_data()
+        # CSR: products with a vector always return an array
+        # (a COO array with a single row returns a scalar)
+        A_eq = sparse.csr_array(A_eq)
         if r_eq != 0:
             raise ValueError(
                 "QUBO construction assume quadratic constraints are of form  xᵀ Q x = 0"
